@@ -100,6 +100,14 @@ CHECKS = {
    note="Trusted: TLC, token->text glue, child isolation. Exact token types/lines are conformance (drift), not the property. "
         "Linear time is token-count bound + loose wall-clock scaling.",
    tech="TLA+ lexer state machine + fault actions, TLC exhaustive; S->I replay"),
+ "C16": dict(cat="model_checking", ref="§6 C16",
+   text="LefRaw.tla specifies the LEF->raw mapping (exact decimal scaling to 1/10000 micron or error, outline from SIZE, shapes "
+        "grouped by layer name over ports/obstructions); MC_LefRaw enumerates sizes, all three shape kinds, multi-pin/port/layer "
+        "structures over decimal classes with 0..7 fractional digits, negatives and x != y, and every non-integral class in every "
+        "coordinate position; TLC emits the expected abstract (or must-be-error); each case is rendered to LEF text in 4 decimal "
+        "spellings, parsed, imported, projected and compared.",
+   note="Trusted: TLC, token->text glue, raw projection (layers by name). Scaled magnitudes below 2^31.",
+   tech="TLA+ mapping spec + TLC case enumeration; S->I replay"),
 }
 
 PENDING = {}
